@@ -105,11 +105,12 @@ func ruleC16(c *Ctx) {
 }
 
 func ruleC17(c *Ctx) {
-	c.Explain("C17 (structural part): must-pass + branch facts + who-writes. Decided: a verification reaches Checkpoint.AddVerification only after verifyVerification returned nil for it (message path: must-pass in authVerification; block path: validVerificationsFromSupLink appends only on the verifyVerification==nil edge); verifyVerification passes valid(), the same-height and the span rule; valid() checks epoch alignment, source<target and the signature; verifySignature verifies v.Signature under v.PubKey over the encoded (source,target) hashes; the validator count given to IsMajority is len(target.Parent.EffectiveValidators()); verifications from a block's sup link are enumerated over the parent epoch's effective validators only; Checkpoint.SupLinks is written only by AddVerification and the store's reload paths. Not decided: the threshold arithmetic and signature-scheme soundness.")
+	c.Explain("C17 (structural part): must-pass + branch facts + who-writes. Decided: a verification reaches Checkpoint.AddVerification only after verifyVerification returned nil for it (message path: must-pass in authVerification; block path: validVerificationsFromSupLink appends only on the verifyVerification==nil edge); verifyVerification passes valid(), the same-height and the span rule; valid() checks epoch alignment, source<target and the signature; verifySignature verifies v.Signature under v.PubKey over the encoded (source,target) hashes; the validator count given to IsMajority is len(target.Parent.EffectiveValidators()); verifications from a block's sup link are enumerated over the parent epoch's effective validators only; Checkpoint.SupLinks is written only by AddVerification and the store's reload paths; a target is marked justified (setJustified) only under a dominating test that the link's source is Justified (reported on today's tree: known finding). Not decided: the threshold arithmetic and signature-scheme soundness.")
 	const R = "mustpass"
 	av := c.Func(pCasper, "(*Casper).authVerification")
 	c.RequireCall(R, c.ScopeFunc(av), true, kVerify)
 	c.RequireOrder("order", av, kVerify, "(*protocol/casper.Casper).addVerificationToCheckpoint")
+	c.justifiedSource("facts")
 	vv := c.Func(pCasper, "(*Casper).verifyVerification")
 	sv := c.ScopeFunc(vv)
 	c.RequireCall(R, sv, true, "(*protocol/casper.verification).valid")
